@@ -7,13 +7,15 @@ PROPS["C13"] = dict(
          "1,10 (1,2,5,10 thorough). The exitrace unit schedules a prompt callback, waits until about the (calibrated) moment the idle worker leaves, "
          "schedules the next one, thousands of times with the arrival offset tracking the exit moment, and it also forces the order 'the last idle worker decides to leave, a Call "
          "arrives right behind it' through the package lock (FIFO hand-over of a starving sync.Mutex). Checked: every future that was not cancelled starts within 3 s of call-return + delay; when nothing is "
-         "pending the package reaches zero worker goroutines within 3*idle + 5 s; a Call after that fires within 3 s. non-trivial = a near future "
+         "pending the package reaches zero worker goroutines within 3*idle + 5 s; a Call after that fires within 3 s. A generations unit schedules a first generation of 1..9000(20000) futures (due in 10 min and cancelled, or due at once and left to fire, or alternating), a second generation of 1..3000 futures due 30-150 ms ahead (part of it before the first cancel sweep), "
+         "and then cancels every handle of the first generation again 0-3 times (forward, reverse or shuffled): every future of the second generation is started exactly once, not early; the heap stays consistent. non-trivial = a near future "
          "was scheduled while only far ones were pending, or a burst exceeded the pool limit, or a Call hit a completely wound-down pool; "
          "distinct = hash of the case; classes max_lateness:* give the observed lateness histogram",
     assumptions=["'eventually' is decided as 'within 3 s' (healthy lateness measured here: p99 5 ms, max ~10 ms under load); a delay defect below 3 s is out of reach",
                  "a time-bound verdict is confirmed by one re-run of the same script before it is reported",
                  "idle timeout / pool limit set and worker count read through the overlay accessors VerifReset/VerifWatchers; the default 30 s idle timeout is not exercised in the quick tier"],
     units=[
+        dict(name="generations", run="^TestC13Generations$", checks=(10, 80), shards=(1, 4), timeout=(300, 1500), shrinktime="20s"),
         dict(name="patterns", run="^TestC13Patterns$", shards=(6, 16), timeout=(300, 1800), shrinktime="20s"),
         dict(name="exitrace", run="^TestC13ExitRace$", shards=(2, 16), timeout=(300, 1800)),
         dict(name="rapid", run="^TestC13Rapid$", checks=(30, 400), shards=(6, 16), timeout=(300, 1800), shrinktime="20s"),
